@@ -24,9 +24,9 @@ type tailBuf struct {
 
 func (t *tailBuf) Write(p []byte) (int, error) {
 	t.mu.Lock()
-	t.b = append(t.b, p...)
-	if len(t.b) > 8192 {
-		t.b = t.b[len(t.b)-8192:]
+	// the beginning of a Go fatal error / panic report says what happened
+	if room := 4096 - len(t.b); room > 0 {
+		t.b = append(t.b, p[:min(room, len(p))]...)
 	}
 	t.mu.Unlock()
 	return len(p), nil
@@ -162,12 +162,20 @@ func (r *Real) ensure() bool {
 	if os.MkdirAll(d, 0755) != nil {
 		return false
 	}
-	p, err := startProc(r.exe, "-child", d, fmt.Sprint(r.as))
-	if err != nil {
-		return false
+	// a child that cannot even answer a ping (resource limits too tight for this Go runtime, ...)
+	// is a problem of the harness, never an observation about the store: retry with looser limits
+	for _, as := range []uint64{r.as, 2 * r.as, 4 * r.as} {
+		p, err := startProc(r.exe, "-child", d, fmt.Sprint(as))
+		if err != nil {
+			return false
+		}
+		if ans, st := p.ask("P", 20*time.Second); st == "ok" && strings.HasPrefix(ans, "pong") {
+			r.p = p
+			return true
+		}
+		p.kill()
 	}
-	r.p = p
-	return true
+	return false
 }
 
 // cmd: (answer, status); status ok | timeout | died | nostart
